@@ -29,7 +29,7 @@ package keeper
 //@ ensures [result_is_final] dispute.Votes[id].VoteResult != types.VoteResult_NO_TALLY
 //@ ensures [stores_dispute_as_given] has(dispute.Disputes, id) && dispute.Disputes[id] == dispute
 //@ ensures [vote_end_is_block_time] dispute.Votes[id].VoteEnd == blocktime(ctx)
-//@ ensures [other_disputes_and_votes_untouched] forall j int :: j != id ==> dispute.Votes[j] == old(dispute.Votes[j]) && dispute.Disputes[j] == old(dispute.Disputes[j])
+//@ ensures [other_disputes_and_votes_untouched] forall j int :: j != id ==> dispute.Votes[j] == old(dispute.Votes[j]) && dispute.Disputes[j] == old(dispute.Disputes[j]) && (has(dispute.Votes, j) <==> old(has(dispute.Votes, j))) && (has(dispute.Disputes, j) <==> old(has(dispute.Disputes, j)))
 
 // ---- fee and slash amounts (C11) ----
 // Stake behind a report of power p is p * 10^6 loya.
@@ -236,11 +236,12 @@ package keeper
 //@ requires [snapshot_totals_non_negative] forall h bytes :: has(dispute.BlockInfo, h) ==> dispute.BlockInfo[h].TotalReporterPower >= 0 && dispute.BlockInfo[h].TotalUserTips >= 0
 //@ requires [supply_non_negative] bank.supply >= 0
 //@ modifies dispute.Disputes, dispute.Votes
+//@ ensures [after_the_voting_period_a_well_formed_round_is_always_tallied] old(has(dispute.Votes, id)) && old(dispute.Votes[id].VoteResult) == types.VoteResult_NO_TALLY && old(dispute.Votes[id].VoteEnd) < blocktime(ctx) && old(has(dispute.Disputes, id)) && old(has(dispute.BlockInfo, bytes(dispute.Disputes[id].HashId))) && old(has(dispute.Params)) ==> err == nil
 //@ ensures [a_tallied_vote_is_not_tallied_again] old(has(dispute.Votes, id)) && old(dispute.Votes[id].VoteResult) != types.VoteResult_NO_TALLY ==> err != nil && nothing_written()
 //@ ensures [without_quorum_nothing_is_decided_before_the_voting_period_ends] err == nil && old(dispute.Votes[id].VoteEnd) >= blocktime(ctx) ==> called(UpdateDispute) && arg(UpdateDispute, quorum)
 //@ ensures [quorum_is_51_percent_of_the_group_weights] called(UpdateDispute) ==> (arg(UpdateDispute, quorum) <==> teampart(id) + retsum(Ratio, 0) >= 51000000)
 //@ ensures [a_quorum_result_closes_the_dispute_for_execution] err == nil && called(UpdateDispute) && arg(UpdateDispute, quorum) ==> dispute.Disputes[id].DisputeStatus == types.Resolved && !dispute.Disputes[id].Open && dispute.Disputes[id].PendingExecution
-//@ ensures [only_this_round_is_written] forall j int :: j != id ==> dispute.Votes[j] == old(dispute.Votes[j]) && dispute.Disputes[j] == old(dispute.Disputes[j])
+//@ ensures [only_this_round_is_written] forall j int :: j != id ==> dispute.Votes[j] == old(dispute.Votes[j]) && dispute.Disputes[j] == old(dispute.Disputes[j]) && (has(dispute.Votes, j) <==> old(has(dispute.Votes, j))) && (has(dispute.Disputes, j) <==> old(has(dispute.Disputes, j)))
 
 // ---- casting a vote (C12) ----
 //@ func (k msgServer).Vote(goCtx, msg) (resp, err)
@@ -264,4 +265,11 @@ package keeper
 // HashId hashes the protobuf encoding of (report, category): a pure function of its arguments (sha-256 and the codec are not modelled).
 //@ func (k Keeper).HashId(ctx, r, c) (h)
 //@ trusted
+//@ ensures [reads_only] nothing_written()
+
+// GetVoters collects the voters of a round through the by-id index; on a store whose index agrees with its primary
+// map (the collections library maintains that) the collection does not fail. Trusted.
+//@ func (k Keeper).GetVoters(ctx, id) (voters, err)
+//@ trusted
+//@ ensures [index_and_store_agree] err == nil
 //@ ensures [reads_only] nothing_written()
